@@ -211,6 +211,32 @@ theorem popTask_none_pool (s : State) (p : Peer) (id : Id)
   rw [this]
   simp
 
+/-- **C25.pool_partial** (the restated `partial` for the fixed worker pool).  A pending task of a peer
+    that is not frozen and is below its per-peer cap can be popped whenever the pool has a free worker:
+    the pool is unbounded (`nWorkers = 0`) or FEWER THAN `nWorkers` WORKERS ARE BUSY.  So a set of
+    stalled peers blocks the others at the pool only by keeping all `nWorkers` workers busy at once
+    (`pool_exhaustion_counterexample`); if the stalled peers have fewer than `nWorkers` runnable requests,
+    or `MaxOutstandingWorkPerPeer` × (number of stalled peers) is below `nWorkers`, they cannot, because
+    a busy worker of a peer is one of that peer's active topics (`LInv.actLive`, Lemmas/RespLifeInv.lean).
+    Together with `partial_never_parks` / `partial_handled` (the manager keeps handling when its own
+    transactions carry no data) this is the proved part of C25.responder. -/
+theorem pool_partial (s : State) (p : Peer) (id : Id) (hf : (getQ s p).freeze = 0)
+    (hp : id ∈ (getQ s p).pending.map (·.1))
+    (hc : s.maxActive = 0 ∨ (getQ s p).active.length < s.maxActive)
+    (hw : s.nWorkers = 0 ∨ liveWorkers s < s.nWorkers) : ∃ s', popTask s p id = some s' := by
+  unfold popTask
+  simp only
+  have h1 : ((getQ s p).freeze == 0) = true := by simpa using hf
+  have h2 : (getQ s p).pending.any (·.1 == id) = true := by
+    obtain ⟨t, ht, hid⟩ := List.mem_map.1 hp
+    exact List.any_eq_true.2 ⟨t, ht, by simpa using hid⟩
+  have h3 : (s.maxActive == 0 || decide ((getQ s p).active.length < s.maxActive)) = true := by
+    rcases hc with h | h <;> simp [h]
+  have h4 : (s.nWorkers == 0 || decide (liveWorkers s < s.nWorkers)) = true := by
+    rcases hw with h | h <;> simp [h]
+  rw [h1, h2, h3, h4]
+  exact ⟨_, rfl⟩
+
 /-- a pool of 2 task workers (taskqueue.Startup(2, ...)), per-peer limit 100: peer 0 stops acknowledging,
     two of its requests are being executed and both executors wait for memory; peer 1's request is
     accepted and queued -/
